@@ -181,6 +181,7 @@ fn profile(prop: &str, tier: Tier, rng: &mut Rng) -> Profile {
         "C19" => {
             // everything the environment could leak into a run: block updates of all kinds
             p.w_block = 4;
+            p.w_queries = 5;
             p.zero_time = 5;
             p.queries = 50;
             p.crash = 40;
